@@ -118,7 +118,7 @@ pub fn new(parameters: &RawParameters, _ctx: &dyn Context) -> Result<Op, Error> 
     // The ellipsoids may be given in any of the ways supported (`ellps` for `ellps_0`,
     // defaults, values forwarded from an enclosing macro), so we look at the resulting
     // ellipsoids rather than at how they were spelled. Explicitly given differences win
-    if params.real("da")? == 0.0 && params.real("df")? == 0.0 {
+    if !params.given.contains_key("da") && !params.given.contains_key("df") {
         let da = ellps_1.semimajor_axis() - ellps_0.semimajor_axis();
         let df = ellps_1.flattening() - ellps_0.flattening();
         params.real.insert("da", da);
